@@ -340,7 +340,7 @@ package xixi_kv
 
 //@ func (*xixi_kv.DB).getNonMergeFileID
 //@   io_effect
-//@   props C06 C07 C02 C01 C14 C18
+//@   props C06 C07 C02 C01 C14 C18 C12
 //@   unshared db
 //@   ensures [absent-marker-reads-zero] old(fs)[fname(dirPath, 0, datafile.MergeFinishedFileSuffix)] == 0 ==> result0 == 0 && result1 == 0
 //@   ensures [no-fs-change] fs == old(fs)
@@ -350,7 +350,7 @@ package xixi_kv
 //@ func (*xixi_kv.DB).loadMergeFiles
 //@   io_effect
 //@   per_return
-//@   props C06 C07 C02 C03 C01 C14 C08 C18
+//@   props C06 C07 C02 C03 C01 C14 C08 C18 C12
 //@   unshared db
 //@   requires [k-adopt] K_adopt(db)
 //@   let D = db.options.DirPath
@@ -513,7 +513,7 @@ package xixi_kv
 //@ pred mergeOutOlder(m, h) = forall id :: {m.olderFiles[id]} has(m.olderFiles, id) ==> fresh(m.olderFiles[id]) && fresh(m.olderFiles[id].ReadWriter) && m.olderFiles[id] != h && dyn(m.olderFiles[id].ReadWriter) != dyn(h.ReadWriter) && arr(m.olderFiles[id].headerBuf) != arr(h.headerBuf)
 
 //@ func (*xixi_kv.DB).Merge
-//@   props C06 C18 C04 C09 C07 C03 C16 C01 C14
+//@   props C06 C18 C04 C09 C07 C03 C16 C01 C14 C02
 //@   ownership
 //@   io_effect
 //@   per_return
